@@ -229,6 +229,19 @@ CHECKS["C19"] = dict(
     technique="Coq proof (printer/parser inverse for nested call expressions with a depth-counting tokenizer; list lemmas for axis removal and filter composition) + vm_compute correspondence via spy functions + exact-rational oracle for mean",
     design="7/C19")
 
+CHECKS["C20"] = dict(
+    text="PARTIAL. Machine-checked proof (Coq) of the naming logic of the NetCDF handler: for every scope chain (any nesting) the walk "
+         "stops at the nearest enclosing group that declares the dimension name, and that declaration gives the size; the rule used "
+         "before the repair is refuted by a concrete file layout. The dimension names the handler gives every variable of generated "
+         "NetCDF4 files (groups to depth 2, shadowed names in nested and sibling groups) are compared with the model. Everything "
+         "else is a direct comparison on the implementation: dataset tree, types, shapes, attributes (scale_factor, add_offset, "
+         "_FillValue kept, no scaling), raw values and decoded .dods responses for random hyperslabs against netCDF4 reads; CSV files "
+         "(quoted / numeric / empty cells, 0-7 rows, JSON side-car) against the rows written under C04-style constraints.",
+    note=TB + "The netCDF4 and csv libraries, numpy's Arrayterator and value fidelity are outside the model; unlimited dimensions are not "
+              "generated. Header-only CSV files are a listed known finding.",
+    technique="Coq proof (nearest-enclosing-scope walk over arbitrary scope chains; refutation witness by vm_compute) + vm_compute correspondence of dimension names + library-read oracle on generated NetCDF4 / CSV files",
+    design="7/C20")
+
 NOT_YET = {
 }
 
